@@ -181,6 +181,18 @@ def run_shard(args):
             except ViolationFound:
                 case, msgs = state["last"]
                 res["violations"].append(dict(case=case, messages=msgs[:5], origin="generated"))
+            except BaseException as e:
+                # Hypothesis reports a failure that does not reproduce on replay as Flaky: the code under test answered
+                # differently for the same case depending on what ran before in this process.  With a recorded violation
+                # that is a finding about the code (history dependence), not a harness error.
+                from hypothesis.errors import Flaky
+                if isinstance(e, Flaky) and state.get("last"):
+                    case, msgs = state["last"]
+                    res["violations"].append(dict(case=case, origin="generated (not reproducible in isolation: the outcome "
+                                                  "depends on what ran earlier in the same process)",
+                                                  messages=msgs[:5]))
+                else:
+                    raise
     except BaseException:
         res["error"] = traceback.format_exc()
     finally:
